@@ -73,7 +73,9 @@ def convertMCNPGeometry(mcnp_parser, lattice_params, args):
                 abspath = t4_vol_cache_path.resolve()
                 print(f'reading TRIPOLI-4 volumes from file {abspath}...',
                       end='', flush=True)
-                vol_conv = pickle.load(dicfile)
+                # the volume conversion adds the transformed copies of the
+                # surfaces to `dic_surface_mcnp`; they are cached alongside
+                vol_conv, dic_surface_mcnp = pickle.load(dicfile)
                 print(' done', flush=True)
         except:
             vol_conv = construct_volume_t4(mcnp_parser, lattice_params,
@@ -87,7 +89,7 @@ def convertMCNPGeometry(mcnp_parser, lattice_params, args):
                 abspath = t4_vol_cache_path.resolve()
                 print(f'writing cells to file {abspath}...',
                       end='', flush=True)
-                pickle.dump(vol_conv, dicfile)
+                pickle.dump((vol_conv, dic_surface_mcnp), dicfile)
                 print(' done', flush=True)
 
     dic_volume, mcnp_new_dict, dic_surface_t4, skipped_cells, union_ids = vol_conv
